@@ -206,7 +206,7 @@ def h_routing(ctx):
                 fc = None
                 if cfg.get("forces"):
                     fc = (np.array([0.1, 1.9]), np.array([0.2, 2.2]))
-                est = vd.Spline(damping=damping, force_coords=fc)
+                est = vd.Spline(damping=None if cfg.get("undamped") else damping, force_coords=fc)
                 est.fit((e, n), d0, w0 if cfg["weights"] else None)
                 jref = est.jacobian((e, n), est.force_coords_)
                 dref = [d0]
@@ -216,7 +216,8 @@ def h_routing(ctx):
                 w1 = ctx.reals("w1", sh)
                 for v in w1.ravel():
                     ctx.assume(v > 0)
-                est = vd.VectorSpline2D(poisson=0.3, mindist=1.0, damping=damping)
+                fcv = (np.array([0.1, 1.9]), np.array([0.2, 2.2])) if cfg.get("forces") else None
+                est = vd.VectorSpline2D(poisson=0.3, mindist=1.0, damping=None if cfg.get("undamped") else damping, force_coords=fcv)
                 est.fit((e, n), (d0, d1), (w0, w1) if cfg["weights"] else None)
                 jref = est.jacobian((e, n), est.force_coords)
                 dref = [d0, d1]
@@ -238,8 +239,8 @@ def h_routing(ctx):
     else:
         ctx.claim("no weights: the solver gets None", call["weights"] is None)
     ctx.claim("the design matrix is the public jacobian of the data coordinates (and force coordinates)", And(np.shape(call["jacobian"]) == np.shape(jref), And([eq(a, b) for a, b in zip(np.ravel(call["jacobian"]), np.ravel(jref))])))
-    if kind == "trend":
-        ctx.claim("Trend is never damped", call["damping"] is None)
+    if kind == "trend" or cfg.get("undamped"):
+        ctx.claim("no damping requested: the solver gets None", call["damping"] is None)
     else:
         ctx.claim("the estimator's damping reaches the solver", (call["damping"] is damping) if (ctx.sym or call["damping"] is None) else eq(call["damping"], damping))
 
@@ -265,6 +266,9 @@ def _cfg_route(tier, seed):
         {"kind": "spline", "shape": (3,), "weights": True, "forces": True},
         {"kind": "vector", "shape": (2, 2), "weights": True},
         {"kind": "vector", "shape": (3,), "weights": False},
+        {"kind": "spline", "shape": (2, 2), "weights": True, "forces": True, "undamped": True},
+        {"kind": "vector", "shape": (2, 2), "weights": True, "forces": True, "undamped": True},
+        {"kind": "spline", "shape": (3,), "weights": True, "undamped": True},
     ]
     return out
 
